@@ -325,25 +325,31 @@ def oneOff : List Dim → List Dim → Bool
   | a :: as, b :: bs => (a.posEq b && oneOff as bs) || allPos as bs
   | _, _ => false
 
-/-- `Reshape(a, s) → a` when the (trusted) annotation of this node's output and the static shape
-    of `a` are the same token list without unknowns, or differ in at most one position while all
-    other extents are equal positive literals (element-count argument). -/
-def reshapeId (ann : Ann) (a s : Term) : Term :=
+/-- the (trusted) annotation of a Reshape output and the static shape of the term `a` are the same
+    token list without unknowns, or differ in at most one position while all other extents are equal
+    positive literals (element-count argument): a value with that annotation that holds the elements
+    of `a` in the same row-major order IS `a`. -/
+def reshapeIdOk (ann : Ann) (a : Term) : Bool :=
   match ann.shape, shapeOf a with
-  | some so, some sa =>
-    if so = sa && so.all (fun d => !d.isUnk) then a
-    else if oneOff so sa then a
-    else app .reshape ann (cons a (cons s nil))
-  | _, _ => app .reshape ann (cons a (cons s nil))
+  | some so, some sa => (so = sa && so.all (fun d => !d.isUnk)) || oneOff so sa
+  | _, _ => false
 
-/-- `Reshape(Reshape(b, s₁), s) → Reshape(b, s)`, then `reshapeId`. -/
+/-- `Reshape(a, s) → a` when `reshapeIdOk`. -/
+def reshapeId (ann : Ann) (a s : Term) : Term :=
+  if reshapeIdOk ann a then a else app .reshape ann (cons a (cons s nil))
+
+/-- `Reshape(Reshape(b, s₁), s) → b` when the final annotation proves the shape of `b` is restored
+    (a chain of reshapes never reorders elements); otherwise `reshapeId` on the outer node only.
+    NOTE: the general collapse `Reshape(Reshape(b, s₁), s) → Reshape(b, s)` is NOT a rule: with
+    `allowzero = 0` a zero entry of `s` copies the extent of the *operand*, so the two sides can differ
+    (`b:(2,3,4)`, `s₁=(6,4)`, `s=(0,-1)`: `(6,4)` vs `(2,12)`). -/
 def mkReshape (ann : Ann) (args : Term) : Term :=
   match args with
   | cons a (cons s nil) =>
     if proper a && proper s then
       match a with
       | app .reshape _ (cons b (cons s1 nil)) =>
-        if proper b && proper s1 then reshapeId ann b s else reshapeId ann a s
+        if proper b && proper s1 && reshapeIdOk ann b then b else reshapeId ann a s
       | _ => reshapeId ann a s
     else app .reshape ann args
   | _ => app .reshape ann args
